@@ -52,6 +52,25 @@ def step (_ : Unit) (line : String) : Unit × String :=
         let v := if r == utf8Lossy (pctDecode seg) then "ok" else "fail not-once"
         s!"ok {hexOfBytes r} ## {v}"
       | none => "bad-op"
+    | ["routeparam", kind, h1, h2] =>
+      if kind != "flat" && kind != "nested" then "bad-op" else
+      match bytesOfHex h1, bytesOfHex h2 with
+      | some s1, some s2 =>
+        -- flat: one ParamsMap::insert per segment; nested: the merged map of parent and child
+        let r := if kind == "nested" then nestedParams [s1, s2] else [pathParam s1, pathParam s2]
+        let v := if r == [utf8Lossy (pctDecode s1), utf8Lossy (pctDecode s2)] then "ok" else "fail not-once"
+        match r with
+        | [a, b] => s!"ok {hexOfBytes a} {hexOfBytes b} ## {v}"
+        | _ => "bad-op"
+      | _, _ => "bad-op"
+    | ["hookquery", h] =>
+      match bytesOfHex h with
+      | some target =>
+        let q := rawQuery target
+        let m := searchParams q
+        let v := if m == specMap (formParse q) then "ok" else "fail not-once"
+        s!"ok {showMap m} ## {v}"
+      | none => "bad-op"
     | ["roundtrip", ms] =>
       match parseMap ms with
       | some m =>
